@@ -109,6 +109,25 @@ def pkcs1_em(k, h, with_id=True, ps=None, tail=b"", bt=1, sep=0, pad=0xFF):
     return bytes([0, bt]) + bytes([pad]) * ps + bytes([sep]) + t
 
 
+def mgf1(seed_, n):
+    out = b""
+    c = 0
+    while len(out) < n:
+        out += hashlib.sha256(seed_ + c.to_bytes(4, "big")).digest()
+        c += 1
+    return out[:n]
+
+
+def pss_em(mhash, emlen, hh=None, db=None, trailer=0xBC, salt=b""):
+    """PSS-shaped encoded message (input construction; the driver clears the leftmost bits and signs it raw)"""
+    if hh is None:
+        hh = hashlib.sha256(bytes(8) + mhash + salt).digest()
+    if db is None:
+        db = bytes(emlen - 32 - 2 - len(salt)) + b"\x01" + salt
+    mask = mgf1(hh, emlen - 33)
+    return bytes(a ^ b for a, b in zip(db, mask)) + hh + bytes([trailer])
+
+
 def rsa_cases(rng, tier, pad, bits_list):
     """RSA with the build's padding (pad in {"pss", "pkcs1", "basic"})"""
     quick = tier == "quick"
@@ -135,6 +154,20 @@ def rsa_cases(rng, tier, pad, bits_list):
                         for xx in ([0x01, 0x80] if not quick else [0x80 if o == 0 else rng.choice([0x01, 0x80, 0xFF])]):
                             muts.append("emx:%d:%02x" % (o, xx))
                     muts += ["emx:0:40", "emx:0:01", "emx:-1:01", "emx:-1:ff"]
+                    if pad == "pss" and bits % 8 == 0:
+                        # consistent maskedDB for a digest field that differs from Hash(M') in one byte (first / middle / last),
+                        # other trailer, DB variants (01 marker replaced, non-zero padding byte, one salt byte)
+                        el = k
+                        H0 = hashlib.sha256(bytes(8) + h).digest()
+                        muts.append("emp=" + pss_em(h, el).hex())                  # the canonical one: valid
+                        for pos in (0, 15, 16, 31):
+                            muts.append("emp=" + pss_em(h, el, hh=H0[:pos] + bytes([H0[pos] ^ 1]) + H0[pos + 1:]).hex())
+                        muts.append("emp=" + pss_em(h, el, trailer=0xCC).hex())
+                        muts.append("emp=" + pss_em(h, el, db=bytes(el - 34) + b"\x02").hex())
+                        muts.append("emp=" + pss_em(h, el, db=bytes(el - 35) + b"\x01\x01").hex())
+                        muts.append("emp=" + pss_em(h, el, db=b"\x00\x01" + bytes(el - 36) + b"\x01").hex())
+                        muts.append("emp=" + pss_em(h, el, salt=b"\x00").hex())
+                        muts.append("emp=" + pss_em(h, el, salt=b"\x5a").hex())
                     if pad == "pkcs1":
                         wid = flag == 0
                         # lax-scanner probes: short padding + trailing garbage, other block types, no separator ...
@@ -173,4 +206,28 @@ def bls_cases(rng, tier):
                 muts += ["%s:%d" % (comp, b) for b in [0, 255] + rng.sample(range(1, 255), nb)]
         muts += msg_muts(rng, m, 1 if quick else 3)[: (3 if quick else 8)]
         out.append("bls %s %s %s" % (seed(rng), hx(m), " ".join(muts)))
+    return out
+
+
+INV_MUTS = ["honest", "s=inf", "s=-s", "s=2s", "s=foreign", "q=foreign", "q=inf", "infkey", "q=-q", "q=2q"]
+
+
+def inv_cases(rng, tier, scheme):
+    """Boneh-Boyen ("bbs": signature in G1, key in G2) and ZSS ("zss": signature in G2, key in G1)"""
+    quick = tier == "quick"
+    out = []
+    for flag in (0, 1):
+        lens = ([5] + (rng.sample(MSG_LENS, 2) if quick else MSG_LENS[::3])) if flag == 0 else ([32] if quick else [0, 1, 31, 32, 33, 64])
+        for j, n in enumerate(lens):
+            m = rmsg(rng, n)
+            muts = list(INV_MUTS) if j == 0 else ["honest", "infkey"]
+            if j == 0:
+                muts.append("q+T" if scheme == "bbs" else "s+T")
+                nb = 1 if quick else 6
+                for comp in ("sx", "sy", "qx", "qy"):
+                    muts += ["%s:%d" % (comp, b) for b in [0, 255] + rng.sample(range(1, 255), nb)]
+                h = hashlib.sha256(m).digest() if flag == 0 else m
+                muts += ["f=%d:%s" % (1 - flag, hx(h)), "f=%d:%s" % (1 - flag, hx(m))] if flag == 0 else []
+            muts += msg_muts(rng, m, 1 if quick else 3)[: (3 if quick else 8)]
+            out.append("%s %s %d %s %s" % (scheme, seed(rng), flag, hx(m), " ".join(muts)))
     return out
